@@ -100,7 +100,11 @@ func (ts *Timers) Start(ctx context.Context) error {
 
 func (ts *Timers) add(ctx context.Context, e *TimerEntry) error {
 	if _, have := ts.Map[e.Id]; have {
-		return ts.cancel(ctx, e.Id)
+		// Making a timer with the id of a pending one
+		// replaces that one.
+		if err := ts.cancel(ctx, e.Id); err != nil {
+			return err
+		}
 	}
 
 	ts.Map[e.Id] = e
